@@ -179,6 +179,16 @@ func DetDriver(r *rand.Rand, n int) [][]Action {
 			d.Order = append(d.Order, j+1)
 		}
 		h = append(h, Action{A: "Add", Tree: varQ("m0/d", st.sym("m0/d"))})
+		if i%3 == 0 {
+			// two keys with the SAME identifier from two packages of the same base name, both imported before the Dict is
+			// reached (so that their qualifiers are settled): d.Same and d1.Same have their order
+			h = append(h, Action{A: "Add", Tree: varQ("m1/d", st.sym("m1/d"))})
+			for _, p := range []string{"m1/d", "m0/d"} {
+				key := stm(grp("qual", &Node{K: "tok", T: "pkg", V: p}, idn("Same")))
+				d.Items = append(d.Items, &Node{K: "pair", Items: []*Node{key, stm(lit(strconv.Itoa(len(d.Items))))}})
+				d.Order = append(d.Order, len(d.Items))
+			}
+		}
 		h = append(h, Action{A: "Add", Tree: stm(kwn("var"), idn("_"), opn("="), idn("T"), grp("values", d))})
 		// a struct with tags of several keys
 		fields := []*Node{}
